@@ -42,7 +42,7 @@ type replay struct {
 func prepare(tier string) (map[string]string, string, error) {
 	repo := repoDir()
 	tag := digest(repo)[:8]
-	dir := filepath.Join("/verif/.cache", "order-"+tag)
+	dir := filepath.Join(mc.Dir(), ".cache", "order-"+tag)
 	os.RemoveAll(dir)
 	os.MkdirAll(dir, 0o755)
 	env := append(os.Environ(), "GOFLAGS=-mod=mod", "GOPROXY=off", "GOSUMDB=off", "GOTOOLCHAIN=local")
@@ -57,13 +57,13 @@ func prepare(tier string) (map[string]string, string, error) {
 		}
 		return nil
 	}
-	if err := run("/verif/tools/vrewrite", "go", "build", "-o", "/verif/bin/vrewrite", "."); err != nil {
+	if err := run(filepath.Join(mc.Dir(), "tools/vrewrite"), "go", "build", "-o", filepath.Join(mc.Dir(), "bin/vrewrite"), "."); err != nil {
 		return nil, "", err
 	}
-	if err := run("/verif", "/verif/bin/vrewrite", "-repo", repo, "-out", dir, "-shim", "/verif/shim"); err != nil {
+	if err := run(mc.Dir(), filepath.Join(mc.Dir(), "bin/vrewrite"), "-repo", repo, "-out", dir, "-shim", filepath.Join(mc.Dir(), "shim")); err != nil {
 		return nil, "", err
 	}
-	exe := filepath.Join("/verif/bin", "vcheck-c08-order-"+tag)
+	exe := filepath.Join(mc.Dir(), "bin", "vcheck-c08-order-"+tag)
 	args := []string{"build", "-overlay", filepath.Join(dir, "overlay.json"), "-tags", "order", "-o", exe}
 	if repo != "/repo" {
 		mtag := ""
@@ -72,10 +72,10 @@ func prepare(tier string) (map[string]string, string, error) {
 		if b, err := sum.Output(); err == nil {
 			mtag = strings.TrimSpace(string(b))
 		}
-		args = append(args, "-modfile=/verif/.cache/mod-"+mtag+"/go.mod")
+		args = append(args, "-modfile="+mc.Dir()+"/.cache/mod-"+mtag+"/go.mod")
 	}
 	args = append(args, "./cmd/c08")
-	if err := run("/verif", "go", args...); err != nil {
+	if err := run(mc.Dir(), "go", args...); err != nil {
 		return nil, "", err
 	}
 	plain, _ := os.Executable()
